@@ -31,7 +31,7 @@ from .sched import Deadlock, Scheduler, StepCap, swap_locks
 from .world import HarnessError, InjectedFault, Violation, real_children
 
 READER_OPS = ("save", "save_vm", "save_path", "copy", "filtered", "copy_to", "to_dict_list", "to_dotfile",
-              "with_list")
+              "with_list", "save_meta")
 
 
 # ------------------------------------------------------------------------------
@@ -94,6 +94,11 @@ def expected_of(op_kind: str, mclone: MTree, typed: bool, name=None):
         return canon_names(c)
     if op_kind in ("copy", "save", "save_vm", "save_path"):
         return c
+    if op_kind == "save_meta":
+        # the mapper stores each node's (live) metadata dict: (structure, meta per
+        # pre-order position)
+        metas = tuple(tuple(sorted((n.meta or {}).items())) for n in mclone.root.iter_pre())
+        return (c, metas)
     if op_kind == "to_dict_list":
         return canon_names(c)
     if op_kind == "with_list":
@@ -113,7 +118,7 @@ def expected_of(op_kind: str, mclone: MTree, typed: bool, name=None):
     raise KeyError(op_kind)
 
 
-def decode_saved(text: str, typed: bool):
+def decode_saved(text: str, typed: bool, with_meta=False):
     meta, entries = S.decode_document(text)
     kids = {0: []}
     info = {}
@@ -130,7 +135,31 @@ def decode_saved(text: str, typed: bool):
     def rec(p):
         return tuple((info[c][0], info[c][1], rec(c)) for c in kids[p])
 
+    if with_meta:
+        # per position: the stored user metadata, or REF for a clone reference (which
+        # carries no fields of its own)
+        metas = []
+        for e in entries[1:]:
+            if e.kind_of_entry == "ref":
+                metas.append(REF)
+            elif isinstance(e.data, dict):
+                metas.append(tuple(sorted((e.data.get("um") or {}).items())))
+            else:
+                metas.append(REF)  # plain string entry: the mapper is not called
+        return (rec(0), tuple(metas))
     return rec(0)
+
+
+REF = "<ref>"
+
+
+def snap_equal(op_kind, got, exp) -> bool:
+    if op_kind == "save_meta" and isinstance(got, tuple) and isinstance(exp, tuple) \
+            and len(got) == 2 and len(exp) == 2 and got[0] != "EXC" and exp[0] != "EXC":
+        if got[0] != exp[0] or len(got[1]) != len(exp[1]):
+            return False
+        return all(g == REF or g == e for g, e in zip(got[1], exp[1]))
+    return got == exp
 
 
 DOT_EDGE = re.compile(r"^\s*(\S+) -> (\S+)")
@@ -169,10 +198,15 @@ def draw_c18_cfg(rng, tier):
         "stall_prob": rng.choice([0.0, 0.0, 0.02, 0.05]),
         "p_nested": rng.choice([0.0, 0.3, 0.6]),
         "p_fault": rng.choice([0.0, 0.0, 0.15, 0.3]),
+        "p_io": rng.choice([0.0, 0.0, 0.05, 0.3]),
         "init_nodes": rng.randint(1, 8),
         "reader_ops": rng.sample(READER_OPS, rng.randint(2, len(READER_OPS))),
         "unique_labels": True,
     }
+    if "save_meta" in cfg["reader_ops"] and "to_dotfile" in cfg["reader_ops"]:
+        # save_meta worlds give nodes explicit data_ids (only such entries reach the
+        # mapper); the DOT decoder identifies nodes by label, so the two do not mix
+        cfg["reader_ops"].remove(rng.choice(["save_meta", "to_dotfile"]))
     return cfg
 
 
@@ -209,13 +243,18 @@ def c18_run(base_seed, index, tier, nt, *, forced=None, cfg_override=None,
     # world with one shared tree, initial content built sequentially
     hcfg = draw_cfg(R.stream(seed, "hcfg"), "C18", "quick", {
         "slots": ["typed" if typed else "plain"], "p_fault": 0.0, "p_refuse": 0.05,
-        "p_steer": 0.0, "flavours": ["s"], "ids": [], "p_explicit_id": 0.0,
+        "p_steer": 0.0, "flavours": ["s"],
+        # (only entries with an explicit id reach the serialize mapper of save_meta)
+        "ids": ["#x1", "#x2", "#x3", "#x4"] if "save_meta" in cfg["reader_ops"] else [],
+        "p_explicit_id": 0.7 if "save_meta" in cfg["reader_ops"] else 0.0,
         "labels": list("abcdefgh"), "max_nodes": 15,
     })
     w = BASE_WEIGHTS
     hcfg["weights"] = {"add": 30, "move": 0 if typed else 10, "remove": 8, "sort": 3,
-                       "set_data": 6, "remove_children": 1, "meta": 0, "filter": 0, "del": 0,
+                       "set_data": 6, "remove_children": 1, "meta": 8, "filter": 0, "del": 0,
                        "clear": 0}
+    if "save_meta" in cfg["reader_ops"]:
+        hcfg["weights"]["meta"] = 40  # metadata edits are what this snapshot can tear
     hcfg["probe_keys"] = []
     hcfg["bulk"] = None  # small shared trees: the schedule space is what is explored here
     hcfg["shape"] = None
@@ -272,6 +311,13 @@ def c18_run(base_seed, index, tier, nt, *, forced=None, cfg_override=None,
                                "with-tree"))
         st["in_cs"] = who
 
+    io_rng = R.stream(seed, "io")
+
+    def slow_disk():
+        # a write to the target stream may take long: another thread runs meanwhile
+        if cfg.get("p_io") and sched.phase2_at is None and io_rng.random() < cfg["p_io"]:
+            sched.pause()
+
     def do_snapshot(kind, fault_at=None, fault_cb=None, plan=None):
         """Execute one snapshot op; -> canonical result."""
         def ser(node, data):
@@ -285,8 +331,26 @@ def c18_run(base_seed, index, tier, nt, *, forced=None, cfg_override=None,
             v = snap_pred_verdict(node.name)
             return nt.SelectBranch() if v == "SEL" else False
 
+        if kind == "save_meta":
+            def ser_meta(node, data):
+                if plan is not None:
+                    plan.tick("mapper")
+                if node.meta is not None:
+                    data["um"] = node.meta  # the node's own dict, not a copy
+                return data
+
+            fp = S.SimStream(fail_at=fault_at if fault_cb == "io" else None)
+            fp.on_write = slow_disk
+            try:
+                tree.save(fp, mapper=ser_meta)
+            except OSError:
+                if fp.failed:
+                    raise InjectedFault("io") from None
+                raise
+            return decode_saved(fp.getvalue(), typed, with_meta=True)
         if kind in ("save", "save_vm"):
             fp = S.SimStream(fail_at=fault_at if fault_cb == "io" else None)
+            fp.on_write = slow_disk
             kw = {}
             if kind == "save_vm":
                 # caller-supplied value map without a "kind" entry (typed trees add it)
@@ -389,10 +453,11 @@ def c18_run(base_seed, index, tier, nt, *, forced=None, cfg_override=None,
                         except ValueError:
                             got = ("EXC", "ValueError")
                         exp = expected_of(kind, slot.model, typed, (cls_name, st["name"]))
-                        if got != exp and not st.get("invalid"):
+                        if not snap_equal(kind, got, exp) and not st.get("invalid"):
                             violations.append(("nested-snapshot",
                                                f"{kind} inside the owner's `with tree:` differs "
-                                               f"from the current state", f"nested/{kind}"))
+                                               f"from the current state: got {str(got)[:300]} expected {str(exp)[:300]}",
+                                               f"nested/{kind}"))
                     run_step(world, {"id": 100001 + tid * 1000 + cs * 10, "k": "add",
                                      "parent": "T0", "api": "add",
                                      "src": {"data": f"s:m{tid}.{cs}.y"},
@@ -425,6 +490,7 @@ def c18_run(base_seed, index, tier, nt, *, forced=None, cfg_override=None,
                 fault = None
                 if cfg["p_fault"] and rng.random() < cfg["p_fault"]:
                     cbs = {"save": ["mapper", "io"], "save_vm": ["mapper", "io"],
+                           "save_meta": ["mapper", "io"],
                            "save_path": ["mapper"],
                            "to_dict_list": ["mapper"],
                            "filtered": ["pred"], "to_dotfile": ["io"]}.get(kind)
@@ -539,7 +605,7 @@ def c18_run(base_seed, index, tier, nt, *, forced=None, cfg_override=None,
         if h["exc"] is not None:
             got = ("EXC", type(h["exc"]).__name__)
         for v in range(lo, hi + 1):
-            if expected_of(h["op"], commits[v][1], typed, commits[v][2]) == got:
+            if snap_equal(h["op"], got, expected_of(h["op"], commits[v][1], typed, commits[v][2])):
                 ok = True
                 break
         if ok:
